@@ -10,13 +10,17 @@ PROPS["C14"] = dict(
         dict(name="C14", flavor="plain", procs_quick=2, procs_thorough=8, timeout=2400),
     ],
     gens=["gen_effects"],
-    rule=("one op per class of the quantifier (Geodesic, GeodesicExact, GeodesicLine(Exact), Rhumb series/exact, RhumbLine, TransverseMercator(Exact), "
+    rule=("one op per class of the quantifier (Geodesic, GeodesicExact, GeodesicLine(Exact); area computations on strongly eccentric ellipsoids f = 3/4, -2, "
+          "9/10, where the DST size of GeodesicExact is N = 48, 48, 96 > 32: GenInverse/GenDirect/Inverse/Line+GenPosition with AREA on one shared GeodesicExact "
+          "[suite GeodesicExact(eccentric)] and on one shared Geodesic(a, f, exact = true) [Geodesic(exact)], GenPosition with AREA on shared GeodesicLineExact "
+          "/ exact GeodesicLine objects of one solver plus new AREA lines made from that solver "
+          "[GeodesicLineExact(eccentric), GeodesicLine(exact)]; Rhumb series/exact, RhumbLine, TransverseMercator(Exact), "
           "PolarStereographic, LambertConformalConic, AlbersEqualArea, Geocentric, LocalCartesian, Ellipsoid, AuxLatitude/DAuxLatitude (all 36 conversion "
           "pairs, both constructors), EllipticFunction, NormalGravity, SphericalHarmonic/1/2 + CircularEngine (after RootTable), GravityModel/"
           "MagneticModel + circles from synthetic coefficient files, thread-safe Geoid (bilinear and cubic) from a synthetic PGM, the static "
           "UTMUPS/MGRS/DMS/Geohash/GARS/Georef/OSGB functions) and one for the singletons (WGS84()/UTM()/UPS()/Mercator()/…/OSGBTM()/OSGB north offset, "
           "always the first op of a process so that the first touch is concurrent): ONE shared instance, ellipsoid parameters / inputs / masks from the seed "
-          "(WGS84, f = 0, 0.1, 1/150, 1/297, prolate), 4–8 threads (4–16 thorough) started behind a barrier, 2–8 iterations over every const API (rotated "
+          "(WGS84, f = 0, 0.1, 1/150, 1/297, prolate; 3/4, -2, 9/10 in the eccentric suites), 4–8 threads (4–16 thorough) started behind a barrier, 2–8 iterations over every const API (rotated "
           "order, half of the threads start with the same call), concurrent phase BEFORE any solo use. non-trivial = an op whose calls returned values; "
           "distinct = distinct (class, threads, iterations, seed)"),
     tolerances={"concurrent vs solo results": "bit-for-bit (doubles, ints, strings, thrown-or-not)", "shared vs fresh equal object": "bit-for-bit",
@@ -33,7 +37,9 @@ PROPS["C14"] = dict(
                 "constructors fill every coefficient block Convert/DConvert can demand), geoid_threadsafe_guarded, fft_sizes_smooth (every FFT size reachable "
                 "from GeodesicExact is 5-smooth, so kissfft's generic butterfly, the only user of its mutable scratch buffer, is not reached), no_const_cast. "
                 "Correspondence: the table is validated against the running code with ThreadSanitizer and by bit-for-bit comparison of every concurrent "
-                "result with the solo result. Limits: Lean sees the extracted effect table, not the machine; the extractor is unverified; TSan observes "
+                "result with the solo result of the very same call on the same object; the code that depends on the DST size (FFT length, radices, any work "
+                "space) is exercised by area computations on shared exact solvers with f = 3/4, -2, 9/10 (N = 48, 48, 96), both GeodesicExact and "
+                "Geodesic(a, f, exact = true), and their lines. Limits: Lean sees the extracted effect table, not the machine; the extractor is unverified; TSan observes "
                 "only the schedules that occurred; the hardware memory model is not modelled. Partial."),
     level_note=("effect table, location list, AuxLatitude constructor fill loops and the GeodesicExact FFT size table regenerated from the sources each run "
                 "(tools/effects.py, clang++-14 -ast-dump=json); hand-written interleaving model; C++11 thread-safe static initialisation is assumed as the language guarantees it"),
